@@ -83,8 +83,12 @@ func isConnectionSpecific(k []byte) bool {
 }
 
 func ToLower(b []byte) []byte {
-	for i := range b {
-		b[i] |= 32
+	for i, c := range b {
+		// Only letters have a lower case. Setting the bit on everything turns
+		// '_' into DEL and '^' into '~', which are other header names.
+		if c >= 'A' && c <= 'Z' {
+			b[i] = c | 32
+		}
 	}
 
 	return b
